@@ -4,16 +4,16 @@
 open C16_model
 open Conv
 
-let zstr (s : sx) : z list = zs_of_sx s
-let ints (l : z list) = List.map int_of_z l
+(* tail-recursive helpers: the scale cases have strings of 10^6 bytes and lists of 10^5 .. 10^6 commits *)
+let tmap f l = List.rev (List.rev_map f l)
+let zstr (s : sx) : z list = tmap (fun x -> z_of_int (int_of_sx x)) (list_of_sx s)
+let ints (l : z list) = tmap int_of_z l
 let show_str (l : z list) =
   "\"" ^ String.concat "" (List.map (fun z -> let c = int_of_z z in
      if c >= 33 && c < 127 && c <> 34 && c <> 40 && c <> 41 then String.make 1 (Char.chr c) else Printf.sprintf "\\x%02x" c) l) ^ "\""
 let show_strs l = "[" ^ String.concat "," (List.map show_str l) ^ "]"
 
 (* ---------- GeneratePeopleDict / Consume ---------- *)
-(* tail-recursive helpers: the scale cases have 10^5 .. 10^6 commits *)
-let tmap f l = List.rev (List.rev_map f l)
 let iints (s : sx) : int list = tmap int_of_sx (list_of_sx s)
 let zstr_t (s : sx) : z list = tmap (fun x -> z_of_int (int_of_sx x)) (list_of_sx s)
 
@@ -86,6 +86,7 @@ let rec gen_case id c =
              | "total" -> "total: an author of the list does not resolve to an index below the number of developers"
              | "same-email" -> "same-email: two commits with the same e-mail / signature (case-insensitively) resolve to different developers"
              | "panic" -> "GeneratePeopleDict/Consume panics on a non-empty commit list"
+             | "consume" -> "total: Consume does not return the index PeopleDict holds for the e-mail / signature of the commit"
              | w -> "description: a developer's description does not list exactly the names and e-mails attached to it (" ^ w ^ ")")
              ^ " [judged in the harness: " ^ string_of_sx v ^ " " ^ string_of_sx (field "gen" c) ^ "]")
        | _ -> failwith "verdict")
